@@ -185,6 +185,18 @@ func TestVerifC01(t *testing.T) {
 			}
 		}
 	}
+	// (a1) MANY signatures whose t = (r+s) mod n is tiny (digest solved), over random nonces: s, and with it the
+	// windows the verifier's base half consumes while the key half is still empty, varies freely
+	for i := 0; i < hk.N(400, 4000); i++ {
+		d := keys[rng.Intn(len(keys))]
+		k := randScalar(rng)
+		tg := bi(int64(1 + rng.Intn(1<<uint([]int{4, 8, 13, 16}[i%4]))))
+		e, ok := solveDigest(d, k, "t", tg)
+		if !ok {
+			continue
+		}
+		cases = append(cases, &c01case{entry: "hashed", d: d, priv: ref.B32(d), e: e, stream: append(ref.B32(k), rng.Bytes(64)...), chunk: 0, label: "solved-tiny-t"})
+	}
 	// (a2) nonce streams whose first in-range candidate is rejected LATE (r=0, r+k=n, s=0: needs a
 	// digest solved from k1 and d) or early (k=0, k>=n), followed by an acceptable candidate: the
 	// signature produced after the retry must still verify
